@@ -184,3 +184,29 @@ def build_reused(cls, params, x, NFFT=None, fs=1.0, scale=False, salt=0):
     if NFFT == 'nextpow2':
         obj.NFFT = 'nextpow2'
     return obj
+
+
+MODEL_BASED = ('pburg', 'pyule', 'pcovar', 'pmodcovar', 'parma', 'pma', 'pminvar')
+
+
+def cond_tol(cls, psd_ref, base):
+    """Tolerance for a relation between two *separately fitted* model spectra.  A rounding difference d in the
+    fitted coefficients moves |A(f)| by ~d, i.e. the spectrum by ~d/|A(f)| relatively: near a pole close to the
+    unit circle (a sharp line) the two runs legitimately differ by sqrt(peak/typical level) times the base."""
+    if cls not in MODEL_BASED:
+        return base
+    p = np.abs(np.asarray(psd_ref, dtype=float))
+    p = p[np.isfinite(p) & (p > 0)]
+    if p.size == 0:
+        return base
+    return base * max(1.0, float(np.sqrt(np.max(p) / np.median(p))))
+
+
+def ill_conditioned_arma(ar, P):
+    """A fitted AR part whose coefficients exceed what any stable polynomial of that order can have (|a_k| <=
+    C(P, k)) comes from a numerically singular system: relations between two such fits are not meaningful."""
+    from math import comb
+    if ar is None:
+        return False
+    a = np.abs(np.asarray(ar))
+    return bool(a.size and (not np.all(np.isfinite(a)) or float(np.max(a)) > 2.0 * comb(int(P), int(P) // 2)))
